@@ -34,4 +34,8 @@ CHECKS.update({
  'C12': _c('Explicit-state BFS over sequences of phase-set changes (every target set containing the non-empty phases up to case), single/multi conversions, reduce_phases, as_stream, touching .vle/.lle/.sle, taking phase views, writes through views and through the parent, get_data/set_data with earlier snapshots and copy_like, over flows from a small alphabet on s/l/g/S/L; closure for three phase universes, depth-bounded for wider alphabets; totals, per-phase rows, T, P and view liveness are checked after every transition.', 'DESIGN.md section 3, C12 and 3b'),
  'C13': _c('Explicit-state BFS over copy / copy_like / link_with (8 flag sets) / unlink / proxy / flow_proxy / mutation / pickle round-trip on a universe of three streams (single and multi-phase, two property packages); the reference model is a union-find over the shareable containers plus values; a complete pickle grid over constructor arguments and over reactions, chemicals and packages.', 'DESIGN.md section 3, C13'),
 })
+
+CHECKS.update({
+ 'C15': _c('Complete grids of lle(T, top_chemical, use_cache) over compositions x temperatures x solver methods x scale factors x top-chemical choices, and every history of 1-3 (thorough: 4) earlier calls from a 9-call alphabet followed by a probe executed with and without reuse and compared with a fresh stream; SLE grids over solutes x solvents x T x given/computed solubility preceded by 0-2 earlier calls; activity equality evaluated independently with thermo.Gamma.', 'DESIGN.md section 3, C15 and 3b'),
+})
 NOT_APPLICABLE = {k: v for k, v in NOT_APPLICABLE.items() if k not in CHECKS}
